@@ -13,6 +13,7 @@ import Golib.Proof.C03Enum
 import Golib.Proof.C03Iter
 import Golib.Proof.C03Bridge
 import Golib.Proof.C03OverSkip
+import Golib.Proof.C03OverPtr
 import Golib.Proof.C03Run
 import Golib.Proof.C03Seq
 import Golib.Proof.C03Fresh
@@ -422,6 +423,38 @@ def exObjs : List (List String) :=
 
 example : (runToks (some St.init) (ownOps 1 0 exObjs)).2 = ownOuts 1 0 exObjs (runToksM MSt.init exObjs).2 := by
   rw [(c03_objects_independent exObjs 1).1]
+
+/-- Composition down to the heap: the RoaringBitmap code run over the POINTER-level skip list of
+C02 (`RBP`, `Proof/C03OverPtr.lean`: `GetNode` answers a node id, `node.Value()/SetValue()` read
+and write that node, `Set/Remove` splice real `next` pointers, `Head()/Next()` follow `next[0]`)
+goes in lockstep with the same code over the list-level skip-list model (`RBS`) and with the
+association-list model (`RB`).  For every sequence of `Add / Remove / Contains` calls with
+`uint32` arguments on the zero value, and for every choice of tower heights: no call panics on
+any of the three levels, the answers are equal, at the end `Rel r rs` (C03 over the list-level
+skip list) and `RelP rs rp` (`Abs` of `c02_pointer_refines_levels` between the two skip lists,
+equal `len`) hold, `Contains` agrees everywhere, and the bucket chain read through real
+pointers (`Head()`, then `node.Next()`, `node.Key()`, `node.Value()`) is the model's
+association list `r.cs`. -/
+theorem c03_over_pointer_skiplist (ops : List SOp) (hx : ∀ op ∈ ops, op.arg < 4294967296) :
+    ∃ r rs rp outs, RB.runS RB.empty ops = some (r, outs) ∧ RBS.run RBS.zero ops = some (rs, outs) ∧
+      RBP.run RBP.zero ops = some (rp, outs) ∧
+      (r.cs = Golib.C02.toMap rs.sl ∧ r.len = rs.len ∧ Golib.C02.Good cfgRB rs.sl) ∧
+      (Golib.C02.Abs rp.sl rs.sl ∧ rp.len = rs.len) ∧ r.Inv ∧
+      (∀ x, rp.contains x = r.contains x) ∧ rp.nodes = some r.cs := by
+  obtain ⟨r, rs, rp, outs, h1, h2, h3, h4, h5, h6⟩ := run_over_ptr ops rel_zero relP_zero RB.empty_inv hx
+  exact ⟨r, rs, rp, outs, h1, h2, h3, h4, h5, h6,
+    fun x => (contains_simP h5 h4.2.2 x).trans (contains_sim h4 x), nodes_simP h5 (nodes_sim h4)⟩
+
+/-- `RBP` really runs on the heap: two buckets (keys 0 and 1 = node ids 0 and 1; the second `Set`
+draws tower height 3, so the list grows to level 2), then bucket 0 is emptied and its node
+unlinked from both levels and left as garbage with an empty tower. -/
+example :
+    let res := RBP.run RBP.zero [.add 1 0, .add 70000 (2 ^ 29), .contains 70000, .remove 1, .contains 1]
+    res.map (·.2) = some [true, true, true, true, false] ∧
+    res.map (·.1.len) = some 1 ∧
+    res.map (fun p => (p.1.sl.chain 0, p.1.sl.chain 1, p.1.sl.level)) = some ([1], [1], 2) ∧
+    res.map (fun p => p.1.sl.nodes.toList.map (·.next.size)) = some [0, 2] ∧
+    res.map (fun p => p.1.nodes.map omToList) = some (some [70000]) := by decide
 
 /-- What the hand-written model takes from the source text, re-extracted from /repo by go/ast
 on every run (`Golib/Gen/FactsC03.lean`; a shape that is not found is emitted as `false`/`0`, so
